@@ -431,6 +431,69 @@ def run_val(case):
     return run, V
 
 
+def run_hist(case):
+    """a history in one process: ONE layout / register object validated, step by
+    step, against several devices that share their name and differ in one limit.
+    Every step is judged on its own (exact geometry of that device and that
+    layout): acceptance must not depend on what was validated before."""
+    import pulser
+    from pulser.register.mappable_reg import MappableRegister
+    from pulser.register.register_layout import RegisterLayout
+
+    V: list[Violation] = []
+    run = dict(kind="hist", built=True, outcomes=[])
+    with warnings.catch_warnings():
+        warnings.simplefilter("ignore")
+        devs = []
+        for d in case["devices"]:
+            dev = build_valid_device(dict(case, device=d), V)
+            if dev is None:
+                run.update(built=False, why="device")
+                return run, V
+            devs.append(dev)
+        try:
+            layout = RegisterLayout(np.array(case["layout"], dtype=float))
+            reg = build_register(case, layout)
+        except Exception as e:  # noqa: BLE001
+            run.update(built=False, why=type(e).__name__ + ": " + str(e)[:200])
+            return run, V
+        pts = pts_of(reg.qubits)
+        names = list(reg.qubit_ids)
+        atom_ids = {str(n): i for i, n in enumerate(names)}
+        traps = pts_of(layout.traps_dict)
+        trap_ids = {str(i): i for i in range(len(traps))}
+        run.update(dim=int(reg.dimensionality), pts=pts, traps=traps, ldim=int(layout.dimensionality))
+        for k, st in enumerate(case["steps"]):
+            dev = devs[st["dev"]]
+            entry = st["entry"]
+            exc = None
+            try:
+                if entry == "validate_register":
+                    dev.validate_register(reg)
+                elif entry == "sequence":
+                    pulser.Sequence(reg, dev)
+                elif entry == "validate_layout":
+                    dev.validate_layout(layout)
+                elif entry == "mappable":
+                    pulser.Sequence(MappableRegister(layout, *[f"m{i}" for i in range(st["n_ids"])]), dev)
+                else:
+                    raise ValueError(entry)
+                out = [0]
+            except Exception as e:  # noqa: BLE001
+                exc = e
+                out = enc_exc(e, atom_ids, trap_ids)
+            run["outcomes"].append(out)
+            sub: list[Violation] = []
+            judge_validation(case, dev, entry, pts, run["dim"], traps, run["ldim"], st.get("n_ids"),
+                             out, exc, names, sub)
+            for v in sub:
+                v.signature = "history:" + v.signature
+                v.what = f"step {k} (device #{st['dev']}, after {k} earlier validations of the same layout): " + v.what
+                v.detail = dict(step=k, outcomes=list(run["outcomes"]))
+            V.extend(sub)
+    return run, V
+
+
 def valid_params_exact(p: dict):
     """documented constraints on the parameters; True / False / None (float-boundary)"""
     virt = p["cls"] == "VirtualDevice"
@@ -621,7 +684,13 @@ def run_auto(case):
             run["validate"] = enc_exc(e, atom_ids, trap_ids)
             if input_ok:
                 inner = e.__cause__ if e.__cause__ is not None else e
-                V.append(Violation("constructor:with_automatic_layout:rejected:" + type(inner).__name__,
+                cause = ""
+                if type(inner).__name__ == "QubitsNumberError":
+                    # which trap count was generated?  ceil(n / f) evaluated in doubles (the known
+                    # double-rounding defect) or fewer traps than even that
+                    fc = int(np.ceil(len(pts) / float(dev.max_layout_filling)))
+                    cause = ":float-ceil" if len(traps) >= max(fc, dev.min_layout_traps) else ":too-few-traps"
+                V.append(Violation("constructor:with_automatic_layout:rejected:" + type(inner).__name__ + cause,
                                    "a register accepted by the device, replicated by with_automatic_layout(device), "
                                    f"is rejected by that device: {str(e)[:200]} / {str(inner)[:120]}", case))
     return run, V
@@ -637,4 +706,6 @@ def run_case(case):
         return run_mc(case)
     if k == "auto":
         return run_auto(case)
+    if k == "hist":
+        return run_hist(case)
     raise ValueError(k)
